@@ -121,6 +121,12 @@ func NewAst(decs []Dec, call *CallStm, srcFile *SourceFile) *Ast {
 	return self
 }
 
+// hasComments returns true if any comments are attached to the node,
+// either directly or separated from it by a blank line.
+func (s *AstNode) hasComments() bool {
+	return len(s.Comments) > 0 || len(s.scopeComments) > 0
+}
+
 func NewAstNode(loc SourceLoc) AstNode {
 	return AstNode{
 		Loc: loc,
